@@ -6,7 +6,7 @@ spec-conformant fragmenting peer written here from AVCTP 1.4 section 6, real avd
 """
 import struct
 
-from vf.e1 import harness, untraced
+from vf.e1 import harness, untraced, concrete as C
 from vf import flags as _flags
 from vf import detloop
 
@@ -307,6 +307,149 @@ def avctp_garbage_then_single(x0: int, x1: int, x2: int, x3: int, n: int) -> boo
 
 
 _flags.int_format_placeholder = True     # log f-strings with symbolic ints are not the subject here (see vf/flags.py)
+
+
+# ------------------------------------------------------------------------------------------ AVDTP stream state machine
+from bumble import a2dp as _a2dp, utils as _utils
+
+
+def _sbc(sink):
+    I = _a2dp.SbcMediaCodecInformation
+    if sink:
+        info = I(sampling_frequency=I.SamplingFrequency.SF_48000 | I.SamplingFrequency.SF_44100, channel_mode=I.ChannelMode.MONO | I.ChannelMode.JOINT_STEREO,
+                 block_length=I.BlockLength.BL_8 | I.BlockLength.BL_16, subbands=I.Subbands.S_4 | I.Subbands.S_8, allocation_method=I.AllocationMethod.LOUDNESS | I.AllocationMethod.SNR,
+                 minimum_bitpool_value=2, maximum_bitpool_value=53)
+    else:
+        info = I(sampling_frequency=I.SamplingFrequency.SF_44100, channel_mode=I.ChannelMode.JOINT_STEREO, block_length=I.BlockLength.BL_16, subbands=I.Subbands.S_8,
+                 allocation_method=I.AllocationMethod.LOUDNESS, minimum_bitpool_value=2, maximum_bitpool_value=53)
+    return avdtp.MediaCodecCapabilities(media_type=avdtp.MediaType.AUDIO, media_codec_type=_a2dp.CodecType.SBC, media_codec_information=info)
+
+
+class _SChan(_utils.EventEmitter):
+    """what avdtp needs from an l2cap.ClassicChannel; writes reach the peer's sink one loop turn later, in order"""
+    EVENT_OPEN, EVENT_CLOSE = 'open', 'close'
+
+    def __init__(self, loop, mtu=672):
+        super().__init__()
+        self.loop, self.peer, self.sink, self.peer_mtu, self.connection = loop, None, None, mtu, None
+
+    def write(self, data):
+        data = bytes(data)
+        self.loop.call_soon(lambda: self.peer.sink and self.peer.sink(data))
+
+    async def disconnect(self):
+        self.emit('close')
+        self.peer.emit('close')
+
+
+class _SConn:
+    def __init__(self, loop, other):
+        self.loop, self.other = loop, other
+
+    async def create_l2cap_channel(self, spec):
+        a, b = _SChan(self.loop), _SChan(self.loop)
+        a.peer, b.peer = b, a
+        self.other().on_l2cap_connection(b)
+        a.emit('open')
+        b.emit('open')
+        return a
+
+
+async def _no_packets():
+    return
+    yield
+
+
+def _fsm_settle(loop, n=5000):
+    for _ in range(n):
+        loop.run_ready()
+        if not loop.ready and not loop.advance():
+            return True
+    return False
+
+
+FSM_OPS = ['configure1', 'configure2', 'open1', 'start1', 'stop1', 'close1', 'open2', 'start2', 'close2']
+
+
+def _fsm_run(program):
+    """None if the real source/sink pair follows the single-owner stream state machine for this program, else what differs"""
+    S = avdtp.State
+    with detloop.running() as loop:
+        ca, cb = _SChan(loop), _SChan(loop)
+        ca.peer, cb.peer = cb, ca
+        pa, pb = avdtp.Protocol(ca), avdtp.Protocol(cb)
+        ca.connection, cb.connection = _SConn(loop, lambda: pb), _SConn(loop, lambda: pa)
+        sink = pb.add_sink(_sbc(True))
+        srcs = [pa.add_source(_sbc(False), avdtp.MediaPacketPump(_no_packets())) for _ in range(2)]
+        t = loop.create_task(pa.discover_remote_endpoints())
+        _fsm_settle(loop)
+        proxy = list(t.result())[0]
+        streams, model, owner = [None, None], [S.IDLE, S.IDLE], None
+        for op in program:
+            name, i = FSM_OPS[op][:-1], int(FSM_OPS[op][-1]) - 1
+            st = streams[i]
+            if name == 'configure':
+                co = pa.create_stream(srcs[i], proxy)
+            elif st is None:
+                continue
+            else:
+                co = {'open': st.open, 'start': st.start, 'stop': st.stop, 'close': st.close}[name]()
+            t = loop.create_task(co)
+            if not _fsm_settle(loop) or not t.done():
+                return f'{FSM_OPS[op]} never ends'
+            ok = t.exception() is None
+            legal = False
+            if name == 'configure':
+                legal = model[i] == S.IDLE and owner is None
+                if legal:
+                    model[i], owner = S.CONFIGURED, i
+                if ok:
+                    streams[i] = t.result()
+                elif streams[i] is None:
+                    streams[i] = pa.streams.get(srcs[i].seid)
+            elif name == 'open':
+                legal = model[i] == S.CONFIGURED and owner == i
+                if legal:
+                    model[i] = S.OPEN
+            elif name == 'start':
+                legal = model[i] in (S.CONFIGURED, S.OPEN) and owner == i
+                if legal:
+                    model[i] = S.STREAMING
+            elif name == 'stop':
+                legal = model[i] == S.STREAMING and owner == i
+                if legal:
+                    model[i] = S.OPEN
+            elif name == 'close':
+                legal = model[i] in (S.OPEN, S.STREAMING) and owner == i
+                if legal:
+                    model[i], owner = S.IDLE, None
+            if ok != legal:
+                return f'{FSM_OPS[op]} {"accepted" if ok else "refused"}, the state machine says {"legal" if legal else "refused"}'
+            for j in (0, 1):
+                if streams[j] is not None and streams[j].state != model[j]:
+                    return f'after {FSM_OPS[op]}: initiator stream {j + 1} is {streams[j].state.name}, expected {model[j].name}'
+            want = model[owner] if owner is not None else S.IDLE
+            have = sink.stream.state if sink.stream else S.IDLE
+            if have != want:
+                return f'after {FSM_OPS[op]}: the sink is {have.name}, the source side {want.name}'
+            if bool(sink.in_use) != (owner is not None):
+                return f'after {FSM_OPS[op]}: sink.in_use = {sink.in_use}'
+        return None
+
+
+def _canary_configured_not_in_use():
+    avdtp.LocalStreamEndPoint.in_use = property(lambda self: 1 if (self.stream and self.stream.state not in (avdtp.State.IDLE, avdtp.State.CONFIGURED)) else 0)
+
+
+@harness(pre=['0 <= b <= 8 and 0 <= c <= 8 and 0 <= d <= 8'], family='avdtp-streams', twin=True, timeout=(150, 400), grids=[(('quick',), {'a': list(range(9)), 'e': [9]}), (('thorough',), {'a': list(range(9)), 'e': [9, 0, 2, 3, 5]})],
+         kernels=('bumble.avdtp.Stream.configure', 'bumble.avdtp.Stream.open', 'bumble.avdtp.Stream.start', 'bumble.avdtp.Stream.stop', 'bumble.avdtp.Stream.close', 'bumble.avdtp.Protocol.on_set_configuration_command',
+                  'bumble.avdtp.Stream.on_open_command', 'bumble.avdtp.Stream.on_start_command', 'bumble.avdtp.Stream.on_suspend_command', 'bumble.avdtp.Stream.on_close_command', 'bumble.avdtp.LocalStreamEndPoint.in_use'),
+         canaries=[('configured-endpoint-not-in-use', _canary_configured_not_in_use)],
+         bounds='two real avdtp.Protocol instances (two local sources, one remote sink) over stub channels: every program of 4 (thorough: a fifth) stream procedures from {configure, open, start, suspend, close} x {stream 1, stream 2}: a procedure is accepted exactly when legal for the single-owner stream state machine, a refused one changes nothing, source-side stream states, the sink state and sink.in_use agree after every step')
+def avdtp_stream_fsm(a: int, b: int, c: int, d: int, e: int) -> bool:
+    b, c, d = C(b, 0, 8), C(c, 0, 8), C(d, 0, 8)
+    with untraced():
+        return _fsm_run([a, b, c, d] + ([e] if e < 9 else [])) is None
 
 
 def e2_obligations(tier):
